@@ -440,6 +440,9 @@ func WriteShards(dir string, cases []Case, shardSize int) error {
 			fmt.Fprintf(w, " case_cons c%d (", i)
 		}
 		w.WriteString("case_nil" + strings.Repeat(")", end-start) + ".\n")
+		// one line per list: bin/check.py's pair regex does not allow the line break that Coq's
+		// pretty-printer may put right after an opening parenthesis ("(\n 106%nat, 101)")
+		fmt.Fprintf(w, "Set Printing Width 10000000.\n")
 		fmt.Fprintf(w, "Definition R : list (nat * N) := Eval vm_compute in map (fun p => (N.of_nat (fst p) + base_index, snd p)) (run_judge 0%%nat judge cases).\nPrint R.\n")
 		fmt.Fprintf(w, "Definition KL := Eval vm_compute in map classify cases.\nPrint KL.\n")
 		w.Flush()
